@@ -26,8 +26,8 @@ from ..evidence import Run, canon_hash
 PID = "C06"
 SHARDS = {"quick": 8, "thorough": 16}
 SHARD_TIMEOUT = {"quick": 600, "thorough": 1700}
-N_A = {"quick": 7000, "thorough": 300000}
-N_B = {"quick": 640, "thorough": 24000}
+N_A = {"quick": 7000, "thorough": 200000}
+N_B = {"quick": 640, "thorough": 16000}
 MAX_ALL = 64
 
 K_D2 = "regex-column-name-not-restored-after-failed-validate"
@@ -205,7 +205,7 @@ K_COL_DROP = "pandas-column-level-drop-invalid-rows-none-check-obj"
 K_FRAME_COERCE_FC = "frame-dtype-coercion-failure-cases-reshape"
 K_JOINT_DUPIDX = "joint-unique-failure-cases-duplicate-or-null-index-labels"
 K_MI_SCHEMA = "multiindex-schema-coerce-on-plain-index"
-K_DROP_SAMPLE = "drop-invalid-rows-shrinks-population-below-sample"
+K_DROP_SAMPLE = "population-shrunk-by-validation-before-sample"
 
 
 def _fields(d):
@@ -326,10 +326,12 @@ def classify_leak(d, o):
             and last in ("api/polars/container.py:validate",
                          "backends/polars/base.py:subsample")):
         return K_PL_SCHEMA_ONLY
-    if (pandas and name == "ValueError" and "larger sample than population" in msg
-            and any_drop(d) and call.get("sample")
+    if (name in ("ValueError", "ShapeError") and "larger sample than" in msg
+            and (any_drop(d) or sp.get("strict") == "filter") and call.get("sample")
             and call["sample"] <= len((d["table"]["columns"] or [{"values": []}])[0]["values"])
-            and last == "backends/pandas/base.py:subsample"):
+            and last.endswith("/base.py:subsample")):
+        # the caller's sample size fits the frame he passed; validation itself
+        # (dropped rows / all columns filtered out) shrank the population
         return K_DROP_SAMPLE
     if (pandas and name == "IndexError" and mi_columns(d)
             and last == "backends/pandas/components.py:get_regex_columns"
@@ -568,26 +570,26 @@ def run(run, ctx):
 def finalize(run, ctx):
     q = ctx.tier == "quick"
     run.floors.update({
-        "channel_evaluated:A:pandas": 1000 if q else 45000,
-        "channel_evaluated:A:polars": 500 if q else 22000,
-        "fault_points_enumerated": 1200 if q else 45000,
-        "check_fault_evaluated": 500 if q else 20000,
-        "other_fault_evaluated": 150 if q else 6000,
-        "state_evaluated:B": 1200 if q else 45000,
-        "B:cases_fully_enumerated": 100 if q else 4000,
-        "fault_points:pandas": 600 if q else 22000,
-        "fault_points:polars": 200 if q else 8000,
+        "channel_evaluated:A:pandas": 1000 if q else 30000,
+        "channel_evaluated:A:polars": 500 if q else 15000,
+        "fault_points_enumerated": 900 if q else 22000,
+        "check_fault_evaluated": 500 if q else 12000,
+        "other_fault_evaluated": 150 if q else 4000,
+        "state_evaluated:B": 900 if q else 22000,
+        "B:cases_fully_enumerated": 100 if q else 3000,
+        "fault_points:pandas": 600 if q else 14000,
+        "fault_points:polars": 200 if q else 5000,
     })
     for k in ("check_vec", "check_elem", "check_groupby", "check_frame",
               "check_frame_row", "groupby_fn", "parser", "parser_elem",
               "parser_frame", "dtype_check", "dtype_coerce"):
-        run.floors[f"fault_points:{k}"] = 8 if q else 300
+        run.floors[f"fault_points:{k}"] = 8 if q else 200
     for t in ("drop_invalid_rows", "add_missing_columns", "coerce",
               "dtype=None+coerce", "empty-rows", "no-columns",
               "duplicate-labels", "non-string-label", "regex+non-string-label",
               "retyped-column", "LazyFrame", "frame-level-check", "joint-unique",
               "depth", "arg"):
-        run.floors["A:tag:" + t] = 15 if q else 600
+        run.floors["A:tag:" + t] = 15 if q else 400
     run.extra["fault_points_enumerated"] = int(
         run.counters.get("fault_points_enumerated", 0))
     run.extra["cases_with_all_fault_points_enumerated"] = int(
